@@ -249,3 +249,35 @@ pub fn core_sequence(mut idx: u64, depth: usize, advs: &[u64], tick: u32, mid: u
 pub fn exact_ref(i: usize) -> Ref {
     Ref { pref: 100 + i as u8, ix: 0 }
 }
+
+// ------------------------------------------------------------------------------------------
+// multi-asset histories
+
+use crate::market::{MarketCase, MARKET_LEVELS};
+
+pub fn market_case_strategy(cfg: GenCfg, max_assets: usize) -> BoxedStrategy<MarketCase> {
+    let wide = cfg.wide;
+    let head = (
+        proptest::collection::vec((tick_strategy(wide), 4u32..1000), 1..=max_assets),
+        proptest::sample::select(MARKET_LEVELS.to_vec()),
+        0u64..1000,
+        0u32..100,
+    );
+    head.prop_flat_map(move |(tm, levels, t0, off)| {
+        let n = tm.len();
+        let ticks: Vec<u32> = tm.iter().map(|x| x.0).collect();
+        let trading = off >= cfg.start_off_pct;
+        let per_asset: Vec<(u32, BoxedStrategy<(u8, Op)>)> = tm
+            .iter()
+            .enumerate()
+            .map(|(a, (tick, mid))| {
+                let mid = (*mid).min(kmax(*tick).saturating_sub(4)).max(4);
+                let f = Frame { tick: *tick, mid, wide: cfg.wide, offgrid: cfg.offgrid };
+                (1u32, op_strategy(&cfg, &f).prop_map(move |op| (a as u8, op)).boxed())
+            })
+            .collect();
+        let _ = n;
+        proptest::collection::vec(Union::new_weighted(per_asset), 0..=cfg.max_len).prop_map(move |ops| MarketCase { ticks: ticks.clone(), levels, trading, t0, ops })
+    })
+    .boxed()
+}
